@@ -15,6 +15,8 @@
 //     (also slices.Sorted(maps.Keys(m)), slices.Collect(maps.Keys(m)) + library sort) gets the
 //     class "sortedkeys" and a generic key: it is accepted by a rule, not by a per-function row;
 //     maps.Keys / maps.Values / maps.All calls are map walks too;
+//   - policy anchors (kind policy): a hash of the persistent state and the scan loops of functions
+//     whose policy other rows rely on (bondgo's register allocator);
 //   - every sort with a custom comparator (kind sortcmp), with the shape of the comparator;
 //   - every use of the clock (time.Now/Since/Until), of math/rand and crypto/rand, of
 //     temp-file / pid / hostname sources, and every `go` statement.
@@ -78,13 +80,14 @@ type listed struct {
 
 // Site is one row of the generated table.
 type Site struct {
-	Kind  string `json:"kind"`  // "range" | "ordered" | "sortcmp" | "clock" | "rand" | "go" | "env"
-	File  string `json:"file"`  // path relative to the repo root
-	Func  string `json:"func"`  // enclosing function, "(*T).m" for methods, "<pkg>" at package level
-	Expr  string `json:"expr"`  // ranged expression / callee
-	Ord   int    `json:"ord"`   // ordinal among the sites with the same kind,file,func,expr
-	Class string `json:"class"` // "+"-joined sorted flag set (range sites), "" otherwise
-	Line  int    `json:"line"`  // informative only; not part of the identity
+	Kind  string `json:"kind"`           // "range" | "ordered" | "sortcmp" | "policy" | "clock" | "rand" | "go" | "env"
+	File  string `json:"file"`           // path relative to the repo root
+	Func  string `json:"func"`           // enclosing function, "(*T).m" for methods, "<pkg>" at package level
+	Expr  string `json:"expr"`           // ranged expression / callee
+	Ord   int    `json:"ord"`            // ordinal among the sites with the same kind,file,func,expr
+	Class string `json:"class"`          // "+"-joined sorted flag set (range sites), "" otherwise
+	Line  int    `json:"line"`           // informative only; not part of the identity
+	Note  string `json:"note,omitempty"` // readable detail behind a hashed class (policy anchors)
 }
 
 func (s Site) ID() string {
@@ -1078,6 +1081,86 @@ func (w *walker) sortCall(call *ast.CallExpr) {
 	w.add("sortcmp", p+"."+name+"("+types.ExprString(call.Args[0])+")", call.Pos(), strings.Join(fl, "+"))
 }
 
+// policyAnchors: functions whose POLICY other rows of the table depend on.  The release walks of
+// bondgo (`for … range bgfunct.Vars`, `for … range bg.Clean.Vars`) hand the registers of a scope back to
+// the allocator in map order; that is harmless only while the allocator's answer to the next request does
+// not depend on the order of earlier releases (lowest free register, scanning upward from 0, no memory of
+// releases).  The anchor records, as a hash, the two syntactic facts that carry that policy: the
+// variables the function declares before its service loop (its persistent state) and the headers of all
+// its three-clause `for` loops (where every scan starts).  An allocator that remembers the last released
+// register adds state and changes a scan's start: the anchor's class changes and the rows must be
+// re-reviewed.  Refactors that touch neither stay quiet.
+var policyAnchors = map[string]bool{
+	"pkg/bondgo/runinfo.go|(*BondgoRuninfo).Var_assigner": true,
+}
+
+func (w *walker) policyAnchor(fd *ast.FuncDecl) {
+	if fd.Body == nil || !policyAnchors[w.rel+"|"+w.fn] {
+		return
+	}
+	var state, loops []string
+	for _, st := range fd.Body.List {
+		switch x := st.(type) {
+		case *ast.AssignStmt:
+			if x.Tok == token.DEFINE {
+				for _, l := range x.Lhs {
+					state = append(state, types.ExprString(l))
+				}
+			}
+		case *ast.DeclStmt:
+			if gd, ok := x.Decl.(*ast.GenDecl); ok {
+				for _, sp := range gd.Specs {
+					if vs, ok := sp.(*ast.ValueSpec); ok {
+						for _, n := range vs.Names {
+							state = append(state, n.Name)
+						}
+					}
+				}
+			}
+		}
+	}
+	sort.Strings(state)
+	stmt := func(s ast.Stmt) string {
+		switch x := s.(type) {
+		case nil:
+			return ""
+		case *ast.AssignStmt:
+			l := []string{}
+			for _, e := range x.Lhs {
+				l = append(l, types.ExprString(e))
+			}
+			r := []string{}
+			for _, e := range x.Rhs {
+				r = append(r, types.ExprString(e))
+			}
+			return strings.Join(l, ",") + x.Tok.String() + strings.Join(r, ",")
+		case *ast.IncDecStmt:
+			return types.ExprString(x.X) + x.Tok.String()
+		case *ast.ExprStmt:
+			return types.ExprString(x.X)
+		}
+		return "?"
+	}
+	ast.Inspect(fd.Body, func(n ast.Node) bool {
+		if f, ok := n.(*ast.ForStmt); ok && (f.Init != nil || f.Post != nil) {
+			c := ""
+			if f.Cond != nil {
+				c = types.ExprString(f.Cond)
+			}
+			loops = append(loops, stmt(f.Init)+";"+c+";"+stmt(f.Post))
+		}
+		return true
+	})
+	note := "state{" + strings.Join(state, ",") + "} loops{" + strings.Join(loops, " | ") + "}"
+	h := uint64(0xcbf29ce484222325)
+	for _, b := range []byte(note) {
+		h ^= uint64(b)
+		h *= 0x100000001b3
+	}
+	*w.sites = append(*w.sites, Site{Kind: "policy", File: w.rel, Func: w.fn, Expr: "state+scans", Class: fmt.Sprintf("h%016x", h),
+		Line: w.fset.Position(fd.Pos()).Line, Note: note})
+}
+
 func (w *walker) parent(k int) ast.Node {
 	if len(w.stack) > k {
 		return w.stack[len(w.stack)-1-k]
@@ -1216,6 +1299,7 @@ func extract(repo string) ([]Site, []string) {
 				if fd, ok := d.(*ast.FuncDecl); ok {
 					w.fn = recvName(fd)
 					w.body = fd.Body
+					w.policyAnchor(fd)
 				}
 				ast.Inspect(d, w.inspect)
 			}
